@@ -71,7 +71,7 @@ CHECKS["C06"] = dict(
     category="proof",
     text="Coq model of crash and restart over the C01 ledger and the C07/C08 task models: a crash right after any commit (any list of crash points) followed by Start (catch-up, reorganisation of a replaced tip, the fast-forward taken only over a stored tip that is still on the node's chain) and the rest of the history gives the ledger and reports of the run that never stopped; restart from ANY state of the import invariant on any chain the node moved to ends on the node's tip and further rescan batches make the wallet ready with the chain's ledger; the task queue rebuilt from the status records has exactly the members the crash lost, import and removal steps resume; refutation witnesses for the two repaired start-up defects (replaced tip at the same height, fast-forward over a stale fork while a wallet is being imported). Tied to the code by crash-point enumeration on the real wallet: the LevelDB handle is closed right after commit k (all volatile state lost), the node moves on or reorganises while the wallet is down, the wallet is reopened, possibly crashed again, and after catching up compared with the uncrashed twin, the extracted model and the chain specification — ordinary histories (create, addresses, blocks, reorganisations, import, removal) and the import-only family (only wallets being restored, chains longer than one rescan batch, node forked below or above the cursor and grown by a few or by more than 2000 blocks).",
     design_ref="DESIGN.md section 5, C06",
-    note="Trusted: Coq kernel (no axioms), ocaml/C01 driver + ExtrOcamlBasic, harness (dbwrap, cfsim, sim, hist; deterministic crypto/rand swap), LevelDB journal for a crash inside a batch write. Theorems exclude fast-forward over a stale fork and a node reorganised back to genesis; ledger effect of import/removal steps enumerated only. Known finding addressbook-row-lost-by-rollback (address rows compared separately).",
+    note="Trusted: Coq kernel (no axioms), ocaml/C01 driver + ExtrOcamlBasic, harness (dbwrap, cfsim, sim, hist; deterministic crypto/rand swap), LevelDB journal for a crash inside a batch write. Theorems exclude a node reorganised back to genesis; the fast-forward is covered by C06_ff_restart_any_chain / C06_ff_restart_resumes; import/removal steps resume by C06_import_resumes / C06_removal_resumes / C06_task_resumes, their ledger effect is C07's / C08's. Known finding addressbook-row-lost-by-rollback (address rows compared separately).",
     technique="Coq proof (crash = restart from the store, induction over histories using the C01 theorems) + crash-point enumeration on the real wallet with twin comparison",
 )
 CHECKS["C18"] = dict(
@@ -92,7 +92,7 @@ CHECKS["C10"] = dict(
     category="proof",
     text="Coq theorems over the same model: the reported staking/binding rows are exactly the wallet's deposit credits, once each, with amount, address/target, frozen period and height, withdrawn iff spent (relative to the row invariant, proved for connects); deposits are excluded from selection; withdrawable iff consensus's sequence lock admits the spend at the next height (staking: height+frozen+1; new binding: 2^32-2 blocks; coinbase deposits keep both locks); built withdrawals carry the least sequence consensus requires. Tied to the code by histories with staking/old+new binding deposits, withdrawals, pending versions and reorgs replayed on the real wallet and the model, and ~1900 built withdrawal transactions per quick run compared.",
     design_ref="DESIGN.md section 5, C10",
-    note="Trusted: as C09. The row invariant across Rollback is covered by the bucket-dump correspondence, not proved; the consensus side is a transcription of mass-core's calcSequenceLock/SequenceLockActive; legal frozen periods (>= 61440) are not mined, small periods are written directly into scripts. Coinbase deposit maturity repaired (91b07dd).",
+    note="Trusted: as C09. The row invariant is proved for every reachable state (C10_rows_invariant, C10_history_exact_reachable: connects and rollbacks of any depth); the consensus side is a transcription of mass-core's calcSequenceLock/SequenceLockActive; legal frozen periods (>= 61440) are not mined, small periods are written directly into scripts. Coinbase deposit maturity repaired (91b07dd).",
     technique="Coq proof (row exactness, sequence-lock equivalence) + extracted-model differential correspondence incl. built withdrawal transactions",
 )
 CHECKS["C03"] = dict(
@@ -118,7 +118,7 @@ CHECKS["C05"] = dict(
 )
 CHECKS["C07"] = dict(
     category="proof",
-    text="Coq model of the restore: discovery, batched rescan (any batch size, any number of batches) with the follower suspended, the tip check of a batch (refused and retried unless the node's block at its upper height is the block the follower is synced to), cursor pull-back on disconnect, hand-over at the tip; theorems: while the node connects, disconnects and RE-connects blocks and the follower processes or lags between batches, a wallet that becomes ready holds exactly the ledger of a wallet that watched the chain live and reports the chain specification; it cannot be selected before; a batch never abandons the task; refutation witnesses for the three repaired defects (dropped task, refused reorganisation after a rescan, the bounce before the tip check). Tied to the code by an original wallet and its twin restored from mnemonic / keystore in a second real instance while blocks and reorganisations arrive between and inside batches (DB gate parks worker or handler at chosen points), the bounce family (node leaves the follower's chain while a batch is parked and returns), 1010-1160 block chains, multi-wallet instances; model = implementation on every step, implementation = chain specification and = the original wallet at the end.",
+    text="Coq model of the restore: discovery, batched rescan (any batch size, any number of batches) with the follower suspended, the tip check of a batch (refused and retried unless the node's block at its upper height is the block the follower is synced to), cursor pull-back on disconnect, hand-over at the tip; theorems: while the node connects, disconnects and RE-connects blocks and the follower processes or lags between batches, a wallet that becomes ready holds exactly the ledger of a wallet that watched the chain live and reports the chain specification; it cannot be selected before; a batch never abandons the task; the same for a store that already holds any number of READY wallets with their history and transactions shared with the restored one (the whole database ends as the live run of all wallets; the other wallets' credits, spent marks and reports are at every moment what they are without the import; closed counterexample for a rescan that skips transactions already recorded for another wallet); refutation witnesses for the three repaired defects (dropped task, refused reorganisation after a rescan, the bounce before the tip check). Tied to the code by an original wallet and its twin restored from mnemonic / keystore in a second real instance while blocks and reorganisations arrive between and inside batches (DB gate parks worker or handler at chosen points), the bounce family (node leaves the follower's chain while a batch is parked and returns), 1010-1160 block chains, multi-wallet instances; model = implementation on every step, implementation = chain specification and = the original wallet at the end.",
     design_ref="DESIGN.md section 5, C07",
     note="Trusted: Coq kernel (no axioms), ExtrOcamlBasic + driver, harness (sim/hist/gate), mass-core's script-hash index (environment, written by the sim). Pending set, key derivation and gap discovery are inputs to this model (C09, C04, C12). Two defects repaired (7082cdf, 4701beb).",
     technique="Coq proof (batched rescan = live ledger for every batch size, by induction on batches using the C01 theorems) + twin correspondence on real WalletManager instances with controlled interleavings",
